@@ -2,7 +2,7 @@
 
 Domain : call lists of length 0..10 over a stateful reference class `Ref` (counter, list, dict, echo, a method that raises an
          exception of a chosen class on a generated predicate, snapshot; plus members that must never run remotely: an
-         unexposed method, a private method, dunders), mixing exposed names, refused names (unexposed, private, dunder,
+         unexposed method, a private method, dunders, an unexposed and an exposed property), mixing exposed names, refused names (unexposed, private, dunder,
          unknown, dotted, empty), wrong signatures and kwargs; normal and oneway batch mode; 4 serializers; 2 server types;
          a real daemon on a unix socket.  Every batch is submitted twice, each time to a FRESH object behind a fresh proxy:
          (raw)        proxy._pyroInvokeBatch(calls, oneway)      - no client side name filter at all
@@ -49,7 +49,8 @@ ASSUMPTIONS = [
     "Pyro5.errors.SerializeError, exactly as for a single call; a registered custom class must arrive as itself",
     "client and daemon live in one process (different threads); the transport is a unix domain socket to avoid ephemeral port "
     "exhaustion - the batch logic is transport independent",
-    "iterator/generator returning methods are not batched (documented as unsupported); unexposed @property members are C02's subject",
+    "iterator/generator returning methods are not batched (documented as unsupported)",
+    "a property (exposed or not) named as a batch member is a refused name: properties are reachable through remote attribute access only",
 ]
 
 SERIALIZERS = ("serpent", "json", "marshal", "msgpack")
@@ -168,10 +169,22 @@ class Ref(object):
         self.log.append(["__secret__"])
         return "dunder ran"
 
+    @property
+    def secret_prop(self):          # unexposed property: naming it as a batch member must not run the getter
+        self.log.append(["secret_prop"])
+        return 1
+
+    @expose
+    @property
+    def open_prop(self):            # exposed property: reachable by remote attribute access only, never as a (batched) call
+        self.log.append(["open_prop"])
+        return self.counter
+
 
 EXPOSED = ("incr", "append", "put", "get", "echo", "fail_if", "snapshot")     # the harness's own exposure rule
 REFUSED_NAMES = ("hidden", "_private", "__secret__", "__dict__", "__class__", "__init__", "nosuch", "incr.x", "snapshot.log",
-                 "Incr", "", "incr ", "_pyroId", "log", "counter", "hidden.x", "__getattribute__")
+                 "Incr", "", "incr ", "_pyroId", "log", "counter", "hidden.x", "__getattribute__", "secret_prop", "open_prop")
+NEVER_RUN = ("hidden", "_private", "__secret__", "secret_prop", "open_prop")
 
 _registered = False
 
@@ -415,12 +428,12 @@ def _state_family(ref_snap, snap):
     except Exception:
         return "state-unreadable"
     if len(gl) > len(rl):
-        if any(e and e[0] in ("hidden", "_private", "__secret__") for e in gl if isinstance(e, list)):
+        if any(e and e[0] in NEVER_RUN for e in gl if isinstance(e, list)):
             return "state:refused-member-ran"
         return "state:extra-calls-ran"
     if len(gl) < len(rl):
         return "state:calls-missing"
-    if any(e and e[0] in ("hidden", "_private", "__secret__") for e in gl if isinstance(e, list)):
+    if any(e and e[0] in NEVER_RUN for e in gl if isinstance(e, list)):
         return "state:refused-member-ran"
     return "state:differs"
 
@@ -508,18 +521,18 @@ def run_case(case):
     if case["ser"] not in SERIALIZERS or case["servertype"] not in ("thread", "multiplex") or len(case["calls"]) > 10:
         raise HarnessError("malformed case")
     ref = reference(case["calls"])
-    suffix = ":marshal" if case["ser"] == "marshal" else ""      # MarshalSerializer has its own conversion code paths
+    msuffix = ":marshal" if case["ser"] == "marshal" else ""     # MarshalSerializer has its own conversion path for results
     viols = []
     seen = set()
     for family, what in judge(case, ref, execute(case, "raw"), "raw"):
         if family not in seen:
             seen.add(family)
-            viols.append(Violation("C11:%s%s" % (family, suffix), what))
+            viols.append(Violation("C11:%s%s" % (family, msuffix if family == "method-exception-not-delivered" else ""), what))
     if public_api_can_spell(case["calls"]):
         for family, what in judge(case, ref, execute(case, "batchproxy"), "batchproxy"):
             if family not in seen:      # something only the BatchProxy layer does wrong
                 seen.add(family)
-                viols.append(Violation("C11:%s:batchproxy%s" % (family, suffix), what))
+                viols.append(Violation("C11:%s:batchproxy%s" % (family, msuffix if family == "method-exception-not-delivered" else ""), what))
     return viols
 
 
@@ -566,7 +579,7 @@ benign_call = st.one_of(_incr, _incr, st.just(["incr", [], {}]), _append, _appen
 
 _raise = _fixed("fail_if", st.sampled_from([True, 1, "x", [0], -1.5, {"a": None}]),
                 st.sampled_from(FAIL_KINDS + ("valueattr", "valueattr", "carried", "carried", "uncarried", "stopiter")), messages, small_ints)
-_refused = st.tuples(st.sampled_from(REFUSED_NAMES + ("hidden", "_private", "__secret__", "incr.x", "snapshot.log", "incr.x")), st.lists(small_values, max_size=2), st.dictionaries(kw_names, small_values, max_size=1)).map(list)
+_refused = st.tuples(st.sampled_from(REFUSED_NAMES + ("hidden", "_private", "__secret__", "incr.x", "snapshot.log", "incr.x", "secret_prop", "open_prop", "secret_prop", "open_prop")), st.lists(small_values, max_size=2), st.dictionaries(kw_names, small_values, max_size=1)).map(list)
 _missing = _fixed("get", st.sampled_from(["missing", "☃", -99, None]))
 _signature = st.tuples(st.integers(0, 6), small_values).map(
     lambda t: [["incr", ["x"], {}], ["incr", [1, 2], {}], ["put", [t[1]], {}], ["incr", [], {"bogus": t[1]}], ["put", [[1], t[1]], {}],
